@@ -52,7 +52,8 @@ def tree_eq(a, b):
     if a[1] is None or b[1] is None:
         return True, None
     if len(a[1]) != len(b[1]):
-        return False, ('#supers of ' + terms.term_str(a[0]), len(a[1]), len(b[1]))
+        return False, ('%d supertypes of %s' % (len(a[1]), terms.term_str(a[0])),
+                       '%d: %s' % (len(b[1]), [terms.term_str(x[0]) for x in b[1]]))
     for x, y in zip(a[1], b[1]):
         ok, why = tree_eq(x, y)
         if not ok:
@@ -450,6 +451,7 @@ def cell_typelab(cell):
         specs = [typelab.random_spec(lang, random.Random(common.h32(cell['rseed'], i)))
                  for i in range(cell['count'])]
     for spec in specs:
+        core.table = None                 # while the table is being built, judge against the constructor snapshot
         lab = typelab.Lab(spec)
         core.table = lab.T
         core.context = {'spec': spec}
